@@ -589,11 +589,12 @@ def fut_configs():
 
 
 def mem_configs():
-    def c(name, th, maxobj, maxops, late="FALSE", skip="FALSE", atonce="FALSE", expect=False, thorough_only=False):
+    def c(name, th, maxobj, maxops, late="FALSE", skip="FALSE", atonce="FALSE", append="FALSE", expect=False,
+          thorough_only=False):
         return {"name": name,
                 "constants": {"Handles": "{1,2,3}", "Churners": "{1,2}", "TH": th, "MaxObj": maxobj, "MaxOps": maxops,
-                              "AnnounceLate": late, "SkipOneToken": skip, "FreeAtOnce": atonce},
-                "invariants": ["NoUseAfterFree", "PublishedAlive", "NoDoubleRetire"], "expect": expect,
+                              "AnnounceLate": late, "SkipOneToken": skip, "FreeAtOnce": atonce, "AppendPending": append},
+                "invariants": ["NoUseAfterFree", "PublishedAlive", "NoDoubleRetire", "ReleaseAfterBump"], "expect": expect,
                 "thorough_only": thorough_only, "workers": 8}
     return [
         c("th1", 1, 4, 3),
@@ -602,6 +603,7 @@ def mem_configs():
         c("variant_announce_late", 1, 4, 3, late="TRUE"),
         c("mut_skip_token", 1, 4, 3, skip="TRUE", expect=True),
         c("mut_free_at_once", 1, 4, 3, atonce="TRUE", expect=True),
+        c("mut_append_pending", 1, 5, 3, append="TRUE", expect=True),
     ]
 
 
